@@ -142,6 +142,9 @@ func c12Op(g *gen.G, typ byte) drv.Op {
 	}
 	reason := func() drv.Op {
 		l := []byte{0x00, 0x00, 0x10, 0x18, 0x80, 0x87, 0x92, 0x8E, 0xA2, 0xFF}
+		if t.Bool(1, 2) {
+			l = gen.AllReasonCodes // every code MQTT defines, for whatever packet type
+		}
 		return drv.Op{Kind: "reason", N: uint32(l[t.Int(len(l))])}
 	}
 	switch typ {
@@ -289,6 +292,95 @@ func c12Op(g *gen.G, typ byte) drv.Op {
 	return drv.Op{Kind: "none"}
 }
 
+// c12Profile: setter calls that MEAN something together in MQTT - a redirect
+// (reason "use another server"/"server moved" with a server reference and a
+// session expiry), an authentication exchange (continue/re-authenticate with
+// method and data), request/response, a described payload, an alias for an
+// empty topic, a refusal with its reason string, a shared subscription. The
+// values are as free as anywhere else; only the combination is chosen.
+func c12Profile(g *gen.G, typ byte) []drv.Op {
+	t := g.T
+	can := map[byte]*ref.PropDef{}
+	for _, d := range settableProps(typ) {
+		can[d.ID] = d
+	}
+	var out []drv.Op
+	prop := func(id byte) {
+		d := can[id]
+		if d == nil {
+			return
+		}
+		for k := 0; k < 6; k++ {
+			o := c12Value(g, d)
+			if o.N != 0 || len(o.B) > 0 {
+				out = append(out, o)
+				return
+			}
+		}
+	}
+	reason := func(l ...byte) { out = append(out, drv.Op{Kind: "reason", N: uint32(l[t.Int(len(l))])}) }
+	switch typ {
+	case ref.ConnAck, ref.Disconnect:
+		switch t.Int(3) {
+		case 0:
+			reason(0x9C, 0x9D)
+			prop(0x1C)
+			prop(0x11)
+		case 1:
+			reason(0x80+byte(t.Int(0x23)), 0x04, 0x8E, 0x97)
+			prop(0x1F)
+			prop(0x11)
+		default:
+			reason(0x00)
+			prop(0x11)
+			prop(0x12)
+			prop(0x13)
+			prop(0x15)
+			prop(0x16)
+		}
+	case ref.Auth:
+		reason(0x18, 0x19, 0x00)
+		prop(0x15)
+		prop(0x16)
+		prop(0x1F)
+	case ref.Connect:
+		switch t.Int(2) {
+		case 0:
+			prop(0x15)
+			prop(0x16)
+		default:
+			out = append(out, drv.Op{Kind: "cleanstart", Flag: false}, drv.Op{Kind: "prop", ID: 0x11, N: 0xFFFFFFFF})
+			prop(0x21)
+			prop(0x27)
+		}
+	case ref.Publish:
+		switch t.Int(3) {
+		case 0:
+			prop(0x08)
+			prop(0x09)
+		case 1:
+			prop(0x01)
+			prop(0x03)
+			out = append(out, drv.Op{Kind: "payload", B: g.Bin(g.Len1())})
+		default:
+			prop(0x23)
+			out = append(out, drv.Op{Kind: "topic", B: []byte{}})
+		}
+	case ref.PubAck, ref.PubRec, ref.PubRel, ref.PubComp:
+		reason(0x10, 0x80, 0x87, 0x91, 0x92, 0x97, 0x99)
+		prop(0x1F)
+	case ref.SubAck, ref.UnsubAck:
+		for k := 1 + t.Int(3); k > 0; k-- {
+			out = append(out, drv.Op{Kind: "code", N: uint32([]byte{0x80, 0x87, 0x8F, 0x91, 0x97, 0x9E, 0xA1, 0xA2, 0x11}[t.Int(9)])})
+		}
+		prop(0x1F)
+	case ref.Subscribe:
+		out = append(out, drv.Op{Kind: "filters", Fs: []ref.Filter{{Name: append([]byte("$share/g/"), g.Filter()...), Opts: 0x04 | byte(t.Int(3))}}},
+			drv.Op{Kind: "prop", ID: 0x0B, N: g.Varint()})
+	}
+	return out
+}
+
 // zeroOf returns the call that sets the same field back to zero/empty/false.
 func zeroOf(o drv.Op) (drv.Op, bool) {
 	z := drv.Op{Kind: o.Kind, ID: o.ID}
@@ -345,6 +437,16 @@ func runC12(c *sim.Ctx) *sim.Violation {
 			continue
 		}
 		ops = append(ops, c12Op(g, typ))
+	}
+	if t.Bool(1, 6) {
+		// a combination that means something in MQTT, its calls spread over the history
+		at := 0
+		for _, o := range c12Profile(g, typ) {
+			at += t.Int(len(ops) - at + 1)
+			ops = append(ops[:at], append([]drv.Op{o}, ops[at:]...)...)
+			at++
+		}
+		c.Count("probe.history-contains-a-meaningful-combination")
 	}
 	if t.Bool(1, 2) {
 		// force a "set non-zero, later set back to zero" pair
